@@ -64,6 +64,9 @@ func genC20(t *rapid.T) C20Case {
 	return c
 }
 
+type c20NamedBool bool
+type c20NamedInt int
+
 func checkC20(c C20Case, r *Rec) *Violation {
 	// options, variables passed one by one in sorted order so that the run is deterministic
 	var opts []eval.GenExprOption
@@ -128,9 +131,18 @@ func checkC20(c C20Case, r *Rec) *Violation {
 		opts = append(opts, eval.GenVariables(map[string]interface{}{n: eval.DNE}))
 	}
 
+	// variables of types the engine does not take (it normalises the listed integer kinds and nothing
+	// else): handed over all the same, they can only be ignored
+	if c.Seed%3 == 0 {
+		for _, mm := range []map[string]interface{}{{"zu_uint": uint(5)}, {"zm_month": time.Month(3)}, {"zf_float": 2.5}, {"zs_str": "x"}, {"zb_named": c20NamedBool(true)}, {"zi_named": c20NamedInt(4)}} {
+			opts = append(opts, eval.GenVariables(mm))
+		}
+	}
+	// the call before this one had other unavailable variables: nothing of it may show up here
+	firstOpts := append(append([]eval.GenExprOption{}, opts...), eval.GenVariables(map[string]interface{}{"zz_stale_1": eval.DNE}), eval.GenVariables(map[string]interface{}{"zz_stale_2": eval.DNE}), eval.EnableTryEval, eval.EnableVariable)
 	var gen eval.GenExprResult
 	o := Safe(func() (eval.Value, error) {
-		_ = eval.GenerateRandomExpr(c.Level, rand.New(rand.NewSource(c.Seed+1)), opts...) // first use of the option values (decoy contents)
+		_ = eval.GenerateRandomExpr(c.Level, rand.New(rand.NewSource(c.Seed+1)), firstOpts...) // first use of the option values (decoy contents)
 		for i, mm := range owned {
 			for k := range mm {
 				mm[k] = real[i]
@@ -172,7 +184,7 @@ func checkC20(c C20Case, r *Rec) *Violation {
 				}
 			}
 			if !isDne {
-				return Violf("C20: the expression uses a variable it was not given: %s\n%s", n, where())
+				return Violf("C20: the expression uses a variable it was not given for this call, or one of a type the engine does not take (z*_ names; zz_stale_* were given to the PREVIOUS call only): %s\n%s", n, where())
 			}
 			usesDNE = true
 		}
